@@ -108,7 +108,7 @@ int main(void) {
   START(T_W)(GATE ? &TD_E : &TD_W, HAS_L ? 2 : 1);
 #endif
 #ifdef PROBE
-  VP_RUNT(vp_thr_entrant_a, 0)
+  vp_cur = 0; vp_thr_entrant_a_cs = (unsigned)vp_nd_range(PROBE_LO, PROBE_N); vp_thr_entrant_a_step();
 #if PROBE > 1
   VP_RUNT(T_L, 1)
 #endif
